@@ -27,6 +27,9 @@ def run(tier, seed):
         rn = vlib.tlc("MC_SigCache", cfg="MC_SigCache_neg.cfg", cwd=d, workers=8, timeout=600)
         if rn.status != "violation":
             raise vlib.InfraError("MC_SigCache negative control (old cache key) not refuted")
+        rn2 = vlib.tlc("MC_SigCache", cfg="MC_SigCache_neg2.cfg", cwd=d, workers=8, timeout=600)
+        if rn2.status != "violation":
+            raise vlib.InfraError("MC_SigCache negative control (single and batch verification in one key space) not refuted")
         tr = os.path.join(d, "trace.ndjson")
         args = ["c11", "-out", tr, "-seed", seed]
         args += ["-seqs", 25, "-len", 60] if tier == "quick" else ["-seqs", 400, "-len", 120]
